@@ -116,6 +116,14 @@ func runC06(w *mon.W) {
 				n = 1 + r.Intn(3000)
 			}
 			s := randCase(r, randString(r, "ACGT", n), []float64{0, 0.5, 1}[r.Intn(3)])
+			if r.Intn(4) == 0 {
+				s = randCaseBlocks(r, strings.ToUpper(s), 90) // soft-masked stretches instead of letter-by-letter case
+				w.Add("strings_with_case_blocks", 1)
+			}
+			if r.Intn(12) == 0 {
+				n = 3000 // the largest length of the scope, a whole number of codons
+				s = randCase(r, randString(r, "ACGT", n), []float64{0, 0.5, 1}[r.Intn(3)])
+			}
 			tbl := codon.GetCodonTable(g.ID)
 			w.Begin(sid, s)
 			var got string
